@@ -765,3 +765,29 @@ impl VMerge {
         self.0.current().map(|(k, v)| (k.get_user_key().to_vec(), k.get_sequence_number(), v[0]))
     }
 }
+
+/// Scheduling points: the harness may register a callback that runs synchronously when the database passes a named point
+/// (e.g. inside a section where the database mutex is released). This emulates "another thread runs to completion here".
+type SchedHook = Arc<dyn Fn(&str) + Send + Sync>;
+static SCHED_HOOK: std::sync::Mutex<Option<SchedHook>> = std::sync::Mutex::new(None);
+thread_local! {
+    static IN_SCHED_HOOK: std::cell::Cell<bool> = std::cell::Cell::new(false);
+}
+
+/// Install or remove the scheduling callback.
+pub fn set_sched_hook(hook: Option<SchedHook>) {
+    *SCHED_HOOK.lock().unwrap() = hook;
+}
+
+/// Called by the database at named points (only compiled with the `verif` feature).
+pub fn sched_point(name: &str) {
+    if IN_SCHED_HOOK.with(|f| f.get()) {
+        return;
+    }
+    let hook = SCHED_HOOK.lock().unwrap().clone();
+    if let Some(hook) = hook {
+        IN_SCHED_HOOK.with(|f| f.set(true));
+        hook(name);
+        IN_SCHED_HOOK.with(|f| f.set(false));
+    }
+}
